@@ -392,9 +392,13 @@ def dtype_name_check(rep, strings):
         except TypeError:
             dt = None
         except Exception as e:
-            rep.violation('dtype-lookup-raises:' + type(e).__name__, f'pandas_dtype({s!r}) raised {e!r}'[:200],
-                          {'stream': 'dtype', 'string': s})
-            continue
+            # numpy's own parser rejects some strings with other exceptions ('6 4x': SyntaxError);
+            # that is this library's business only if one of its classes claimed the string
+            if any(s.lower().startswith(k) for k in KIND_ORDER):
+                rep.violation('dtype-lookup-raises:' + type(e).__name__, f'pandas_dtype({s!r}) raised {e!r}'[:200],
+                              {'stream': 'dtype', 'string': s})
+                continue
+            dt = None
         if dt is not None and not isinstance(dt, GeometryDtype):
             continue  # a numpy / pandas dtype of its own ('int64'): not this library's name space
         low = s.lower()
@@ -424,8 +428,10 @@ def dtype_name_check(rep, strings):
                 if m:
                     inner = m.group('subtype')
                     try:
-                        ok = np.dtype(inner).kind in 'iuf'
-                    except TypeError:
+                        # a numeric numpy dtype that Arrow can hold (float128 'g' cannot)
+                        import pyarrow as pa
+                        ok = np.dtype(inner).kind in 'iuf' and pa.from_numpy_dtype(np.dtype(inner)) is not None
+                    except Exception:
                         ok = False
                     if ok:
                         rep.violation('dtype-rejected', f'{s!r} is a well-formed dtype name but is rejected',
@@ -514,7 +520,7 @@ def finish(rep, acc):
                       'the columns read_parquet_dask hands to Dask for the meta frame differ from Model/ParquetCols.v',
                       {**acc.cn[2][i], 'model': C.coq_eval(PC_IMPORTS, f'({CN_FN}) {C.coq(acc.cn[0][i])}')})
     for fn, ty, (cases, ress, metas) in ((LA_FN, 'listarr * listarr', acc.la), (FA_FN, 'fixarr * fixarr', acc.fa)):
-        bad = C.coq_mismatches(AR_IMPORTS, fn, ty, 'bool', cases, ress, shard=60)
+        bad = C.coq_mismatches(AR_IMPORTS, fn, ty, 'bool', cases, ress, shard=25)
         for i in bad[:3]:
             rep.violation('decode-differs:' + metas[i]['path_kind'],
                           'the buffers read back do not decode (Model/Arrow.v) to the elements written, or are ill-formed',
